@@ -421,6 +421,26 @@ void hp_family()
             Prog t3 = { {ATTACH,0,0,0}, {SCAN,0,0,0}, {DETACH,0,0,0} };       // may reuse the writer's record or adopt its leftovers
             add<cds::gc::HP>( "rw-orphan-adopt", c3, { rd, wr, t3 }, { 0 }, 0, 2, 3 );
         }
+        // two helpers race to adopt the leftovers of a detached thread (only the two detach calls are explored, so the bound can be deeper)
+        {
+            Cfg c4 = c; c4.H = 1; c4.N = 4; c4.R = 5;
+            Prog rd = { {ATTACH,0,0,0}, {PROTECT,0,0,0}, {BEGIN,0,0,0}, {END,0,0,0}, {DEREF,0,0,0}, {RELEASE,0,0,0}, {DETACH,0,0,0} };
+            Prog wr = { {ATTACH,0,0,0}, {SWAPRET,0,1,0}, {RETIRE,2,0,0}, {DETACH,0,0,0}, {BEGIN,0,0,0}, {END,0,0,0} };     // leaves o0 (guarded) in an ownerless record
+            Prog h1 = { {ATTACH,0,0,0}, {BEGIN,0,0,0}, {DETACH,0,0,0}, {END,0,0,0} };
+            Prog h2 = { {ATTACH,0,0,0}, {BEGIN,0,0,0}, {DETACH,0,0,0}, {END,0,0,0} };
+            add<cds::gc::HP>( "adopt-race", c4, { rd, h1, h2, wr }, { 0 }, 0, 2, 3 );      // the writer attaches last: the helpers cannot simply reuse its record
+            Prog h3 = { {ATTACH,0,0,0}, {RETIRE,3,0,0}, {BEGIN,0,0,0}, {DETACH,0,0,0}, {END,0,0,0} };
+            add<cds::gc::HP>( "adopt-race-retiring-helper", c4, { rd, h1, h3, wr }, { 0 }, 1, 2, 3 );
+        }
+        // a thread attaches (re-using an ownerless record) while another thread's detach is adopting that very record
+        {
+            Cfg c4 = c; c4.H = 1; c4.N = 4; c4.R = 5;
+            Prog hp = { {ATTACH,0,0,0}, {BEGIN,0,0,0}, {DETACH,0,0,0}, {END,0,0,0} };
+            Prog xw = { {ATTACH,0,0,0}, {BEGIN,0,0,0}, {SWAPRET,0,1,0}, {SCAN,0,0,0}, {END,0,0,0}, {DETACH,0,0,0} };
+            Prog wd = { {ATTACH,0,0,0}, {DETACH,0,0,0}, {BEGIN,0,0,0}, {END,0,0,0} };                 // leaves an ownerless record behind
+            Prog at = { {BEGIN,0,0,0}, {ATTACH,0,0,0}, {PROTECT,0,0,0}, {DEREF,0,0,0}, {DEREF,0,0,0}, {END,0,0,0}, {RELEASE,0,0,0}, {DETACH,0,0,0} };
+            add<cds::gc::HP>( "attach-vs-helpscan", c4, { hp, xw, wd, at }, { 0 }, 0, 2, 3 );
+        }
         // two writers retiring different objects guarded by one reader with two slots
         {
             Cfg c3 = c; c3.H = 2; c3.N = 3; c3.R = 7;
@@ -462,6 +482,21 @@ void dhp_family()
             Prog t3 = { {ATTACH,0,0,0}, {SCAN,0,0,0}, {DETACH,0,0,0} };
             add<cds::gc::DHP>( "rw-orphan-adopt", c, { rd, wr, t3 }, { 0 }, 0, 2, 2, 40000 );
         }
+    }
+    {
+        Cfg c; c.dhp = true; c.initial = 4;
+        Prog rd = { {ATTACH,0,0,0}, {PROTECT,0,0,0}, {BEGIN,0,0,0}, {END,0,0,0}, {DEREF,0,0,0}, {RELEASE,0,0,0}, {DETACH,0,0,0} };
+        Prog wr = { {ATTACH,0,0,0}, {SWAPRET,0,1,0}, {RETIRE,2,0,0}, {DETACH,0,0,0}, {BEGIN,0,0,0}, {END,0,0,0} };
+        Prog h1 = { {ATTACH,0,0,0}, {BEGIN,0,0,0}, {DETACH,0,0,0}, {END,0,0,0} };
+        add<cds::gc::DHP>( "adopt-race", c, { rd, h1, h1, wr }, { 0 }, 0, 2, 3, 40000 );
+    }
+    {
+        Cfg c; c.dhp = true; c.initial = 4;
+        Prog hp = { {ATTACH,0,0,0}, {BEGIN,0,0,0}, {DETACH,0,0,0}, {END,0,0,0} };
+        Prog xw = { {ATTACH,0,0,0}, {BEGIN,0,0,0}, {SWAPRET,0,1,0}, {SCAN,0,0,0}, {END,0,0,0}, {DETACH,0,0,0} };
+        Prog wd = { {ATTACH,0,0,0}, {RETIRE,5,0,0}, {DETACH,0,0,0}, {BEGIN,0,0,0}, {END,0,0,0} };
+        Prog at = { {BEGIN,0,0,0}, {ATTACH,0,0,0}, {PROTECT,0,0,0}, {DEREF,0,0,0}, {DEREF,0,0,0}, {END,0,0,0}, {RELEASE,0,0,0}, {DETACH,0,0,0} };
+        add<cds::gc::DHP>( "attach-vs-helpscan", c, { hp, xw, wd, at }, { 0 }, 0, 2, 3, 40000 );
     }
     // retired-array growth (F2): g guarded of 256 retired by one thread, then release and scan
     for ( int g : { 0, 1, 63, 64, 192, 193, 200, 255, 256 } ) {
